@@ -309,11 +309,13 @@ class BeckeWeights:
         if sectors == 1:
             weights += self.compute_atom_weight(points, atcoords, atnums, select[0])
         else:
-            for i in select:
+            # segment i (delimited by pt_ind[i]:pt_ind[i + 1]) gets the weight of atom select[i],
+            # as in generate_weights
+            for i, atom in enumerate(select):
                 ind_start = pt_ind[i]
                 ind_end = pt_ind[i + 1]
                 weights[ind_start:ind_end] += self.compute_atom_weight(
-                    points[ind_start:ind_end], atcoords, atnums, i
+                    points[ind_start:ind_end], atcoords, atnums, atom
                 )
         return weights
 
